@@ -53,6 +53,8 @@ structure Output where
   levelmin : Nat
   levelmax : Nat
   nx : Nat
+  /-- coarse-grid size per axis when the axes differ (a box with boundary regions along some axes only); empty = `nx` on every axis -/
+  nxs : List Nat := []
   noutput : Nat
   keyb : Nat
   boxlen : Rat
@@ -76,7 +78,8 @@ structure Output where
 namespace Output
 
 def twotondim (o : Output) : Nat := 2 ^ o.ndim
-def nxyz (o : Output) : List Nat := (List.range 3).map fun k => if k < o.ndim then o.nx else 1
+def nxOf (o : Output) (k : Nat) : Nat := o.nxs.getD k o.nx
+def nxyz (o : Output) : List Nat := (List.range 3).map fun k => if k < o.ndim then o.nxOf k else 1
 def ncoarse (o : Output) : Nat := o.nxyz.foldl (· * ·) 1
 def oct? (o : Output) (id : Nat) : Option Oct := o.octs.find? (·.id == id)
 def heldOf (o : Output) (cpu level dom : Nat) : List Oct :=
@@ -224,7 +227,7 @@ def Output.fromJson? (j : Json) : Option Output := do
                    emptyFile := ← getBool? s "empty_file" })
   pure {
     ndim := ← getNat? j "ndim", ncpu := ← getNat? j "ncpu", nboundary := ← getNat? j "nboundary",
-    levelmin := ← getNat? j "levelmin", levelmax := ← getNat? j "levelmax", nx := ← getNat? j "nx",
+    levelmin := ← getNat? j "levelmin", levelmax := ← getNat? j "levelmax", nx := ← getNat? j "nx", nxs := (getNats? j "nxs").getD [],
     noutput := ← getNat? j "noutput", keyb := ← getNat? j "keyb",
     boxlen := ← getRat? j "boxlen", unitD := ← getRat? j "unit_d", unitL := ← getRat? j "unit_l",
     unitT := ← getRat? j "unit_t", time := ← getRat? j "time", ghostPoison := ← getRat? j "ghost_poison",
